@@ -55,6 +55,9 @@ def configs(tier):
         pairs = [p for p in pairs if p[0] in (1, 2, 3, 6, 7, 9, 10, 12)]
     for nv, n in pairs:
         out.append(dict(fp=True, nv=nv, n=n))
+    # integer-typed geometry (python ints for dimensions and origin, as users write them)
+    out.append(dict(shape=[4, 6], counts=[2, 3], colour=False, divisible=True, int_geometry=True))
+    out.append(dict(shape=[3, 4], counts=[3, 2], colour=False, divisible=True, int_geometry=True))
     out.append(dict(shape=[4, 6], counts=[2, 3], colour=True, divisible=True))
     out.append(dict(shape=[5, 4], counts=[2, 3], colour=True, divisible=False))
     return out
@@ -95,6 +98,8 @@ def body(cfg):
     a = S.array("a", full, lo=-10, hi=10)
     dims = [S.real("d0", lo="1/10000", hi=10000), S.real("d1", lo="1/10000", hi=10000)]
     org = [S.real("o0", lo=-100, hi=100), S.real("o1", lo=-100, hi=100)]
+    if cfg.get("int_geometry"):
+        dims, org = [3, 5], [2, 7]
     rho = S.real("rho", lo=0, hi="1/2")
     img = darsia.Image(a.copy(), dimensions=list(dims), origin=list(org), scalar=not cfg["colour"])
     P = darsia.Patches(img, list(n), rel_overlap=rho)
